@@ -74,6 +74,16 @@ theorem emit_error (env : Env Q R σ) (cfg : SessionCfg) (henc : EncoderOk env c
   have : ¬ ((n : Int) > (cfg.maxResponseSize : Int)) := by omega
   rw [if_neg this]
 
+theorem emit_sends (env : Env Q R σ) (cfg : SessionCfg) (henc : EncoderOk env cfg) (m : Mid Q R) (req : Q)
+    (hreq : m.request = some req) (n : Nat) (hn : env.encLen m.response m.kmipVersion = some n) :
+    ∃ r, (emit env m).sent = some r := by
+  obtain ⟨k, hk, _⟩ := henc.errEnc (env.version req) SRsn.responseTooLarge m.kmipVersion
+  unfold emit
+  simp only [hn, hreq, hk]
+  split
+  · exact ⟨_, rfl⟩
+  · exact ⟨_, rfl⟩
+
 /-- Every framed request gets a response: no exception leaves `_handle_message_loop`. -/
 theorem handle_one_response (env : Env Q R σ) (cfg : SessionCfg) (henc : EncoderOk env cfg)
     (peer : Option Cert) (s : σ) (data : Bytes) :
@@ -86,13 +96,9 @@ theorem handle_one_response (env : Env Q R σ) (cfg : SessionCfg) (henc : Encode
     · split
       · rw [emit_error env cfg henc]; exact ⟨_, rfl⟩
       · split
-        · rename_i req _ id _ r m v s' he
+        · rename_i he
           obtain ⟨n, hn⟩ := henc.engEnc _ _ _ _ _ _ _ he
-          simp only [emit, hn]
-          split
-          · obtain ⟨k, hk, _⟩ := henc.errEnc (env.version req) SRsn.responseTooLarge v
-            simp only [hk]; exact ⟨_, rfl⟩
-          · exact ⟨_, rfl⟩
+          exact emit_sends env cfg henc _ _ rfl n hn
         · rw [emit_error env cfg henc]; exact ⟨_, rfl⟩
         · rw [emit_error env cfg henc]; exact ⟨_, rfl⟩
 
@@ -143,7 +149,7 @@ theorem parse_failure_no_engine (env : Env Q R σ) (cfg : SessionCfg) (peer : Op
   unfold evaluate
   split
   · exact ⟨rfl, rfl⟩
-  · simp only [hp]; exact ⟨rfl, rfl⟩
+  · simp [hp]
 
 /-- …and the client is told so: INVALID_MESSAGE under protocol version 1.0 (when the client
 certificate passed the checks that precede decoding). -/
@@ -164,9 +170,9 @@ theorem parse_failure_rejected (env : Env Q R σ) (cfg : SessionCfg) (henc : Enc
     (peer : Option Cert) (s : σ) (data : Bytes) (hp : env.parse data = none) :
     handleMessage env cfg peer s data = (⟨some (rejection cfg peer), none⟩, s) := by
   unfold handleMessage evaluate rejection
-  split
-  · simp only [emit_error env cfg henc]
-  · simp only [hp, emit_error env cfg henc]
+  cases hc : certStage cfg.auth.tlsClientAuth peer with
+  | none => simp only [emit_error env cfg henc]
+  | some cert => simp only [hp, emit_error env cfg henc]
 
 /-! ## the loop keeps going -/
 
